@@ -201,6 +201,7 @@ func (p *prog) dump(t *tensor.Dense, dt *dtInfo) *rec {
 	r.fields["old"] = b01(!oz)
 	_, n, _ := tensor.VerifWindow(t)
 	r.fields["len"] = strconv.Itoa(n)
+	r.fields["wf"] = b01(wfMeta(t.Shape(), t.Strides(), n, t.Size()))
 	cs := allCoords(t.Shape())
 	if len(cs) > 4096 {
 		r.fields["elems"] = "big"
@@ -226,6 +227,36 @@ func (p *prog) dump(t *tensor.Dense, dt *dtInfo) *rec {
 		r.fields["mask"] = sb.String()
 	}
 	return r
+}
+
+// wfMeta is the C13 metadata invariant evaluated on the implementation's own accessors: one
+// stride per axis, Size() = product of the shape, all addresses distinct and inside the window.
+func wfMeta(shape, strides []int, length int, reportedSize int) bool {
+	prod := 1
+	for _, d := range shape {
+		if d < 0 {
+			return false
+		}
+		prod *= d
+	}
+	if prod > 4096 {
+		return true
+	}
+	if len(strides) != len(shape) || reportedSize != prod {
+		return false
+	}
+	seen := map[int]bool{}
+	for _, c := range allCoords(shape) {
+		a := 0
+		for i := range c {
+			a += c[i] * strides[i]
+		}
+		if a < 0 || a >= length || seen[a] {
+			return false
+		}
+		seen[a] = true
+	}
+	return true
 }
 
 func (p *prog) get(tok string) (*tensor.Dense, *dtInfo) {
@@ -366,6 +397,111 @@ func (p *prog) step(idx int, toks []string) *rec {
 		}
 		v, _ := dt.litVal("w" + strconv.Itoa(idx))
 		return simple(guard(func() error { return t.SetAt(v, c...) }))
+	case "clone":
+		t, dt := p.get(toks[1])
+		if t == nil {
+			p.push(nil, dt)
+			return simple("skip")
+		}
+		return p.newOp(dt, func() (*tensor.Dense, error) { return t.Clone().(*tensor.Dense), nil })
+	case "shallow":
+		t, dt := p.get(toks[1])
+		if t == nil {
+			p.push(nil, dt)
+			return simple("skip")
+		}
+		return p.newOp(dt, func() (*tensor.Dense, error) { return t.ShallowClone(), nil })
+	case "mat":
+		t, dt := p.get(toks[1])
+		if t == nil {
+			p.push(nil, dt)
+			return simple("skip")
+		}
+		return p.newOp(dt, func() (*tensor.Dense, error) { return t.Materialize().(*tensor.Dense), nil })
+	case "safeT":
+		t, dt := p.get(toks[1])
+		axes, err := parseInts(toks[2])
+		if t == nil || err != nil {
+			p.push(nil, dt)
+			return simple("skip")
+		}
+		return p.newOp(dt, func() (*tensor.Dense, error) { return t.SafeT(axes...) })
+	case "roll":
+		t, dt := p.get(toks[1])
+		if t == nil || len(toks) != 5 {
+			p.push(nil, dt)
+			return simple("skip")
+		}
+		axis, _ := strconv.Atoi(toks[2])
+		start, _ := strconv.Atoi(toks[3])
+		return p.newOp(dt, func() (*tensor.Dense, error) { return t.RollAxis(axis, start, toks[4] == "1") })
+	case "memset":
+		t, dt := p.get(toks[1])
+		if t == nil {
+			return simple("skip")
+		}
+		v, _ := dt.litVal("w" + strconv.Itoa(idx))
+		return simple(guard(func() error { return t.Memset(v) }))
+	case "zero":
+		t, _ := p.get(toks[1])
+		if t == nil {
+			return simple("skip")
+		}
+		return simple(guard(func() error { t.Zero(); return nil }))
+	case "copy":
+		d, _ := p.get(toks[1])
+		t, _ := p.get(toks[2])
+		if t == nil || d == nil {
+			return simple("skip")
+		}
+		return simple(guard(func() error { return tensor.Copy(d, t) }))
+	case "copyto":
+		t, _ := p.get(toks[1])
+		d, _ := p.get(toks[2])
+		if t == nil || d == nil {
+			return simple("skip")
+		}
+		return simple(guard(func() error { return t.CopyTo(d) }))
+	case "reshape":
+		t, _ := p.get(toks[1])
+		dims, err := parseInts(toks[2])
+		if t == nil || err != nil {
+			return simple("skip")
+		}
+		return simple(guard(func() error { return t.Reshape(dims...) }))
+	case "calcS":
+		t, _ := p.get(toks[1])
+		sls, err := parseSlices(toks[2])
+		if t == nil || err != nil {
+			return simple("skip")
+		}
+		var sh tensor.Shape
+		res := guard(func() error { x, err := t.Shape().S(sls...); sh = x; return err })
+		r := simple(res)
+		if res == "ok" {
+			r.fields["shape"] = showInts(sh)
+		}
+		return r
+	case "calcT":
+		t, _ := p.get(toks[1])
+		axes, err := parseInts(toks[2])
+		if t == nil || err != nil {
+			return simple("skip")
+		}
+		var sh tensor.Shape
+		res := guard(func() error {
+			ap, _, err := t.Info().T(axes...)
+			if _, ok := err.(tensor.NoOpError); ok {
+				err = nil
+			}
+			sh = ap.Shape()
+			return err
+		})
+		r := simple(res)
+		if res == "ok" {
+			r.fields["shape"] = showInts(sh)
+		}
+		return r
 	case "atbox":
 		t, dt := p.get(toks[1])
 		if t == nil || len(toks) != 4 {
